@@ -17,7 +17,7 @@ Driver for the C18 correspondence check (M_io).  Reads the trace of `harness/src
 Lines:  case <name> mode=<N|u> chunk=<c> exact=<0|1> …
         call s <k> write <hex>|flush|shutdown     ret s <k> ok [<n>] | err <kind>     probe s <bw> <exp|->
         call r <k> read <n>                       ret r <k> ok <hex> | err <kind>     probe r <br> <size|->
-        pend <s|r> <k> | drop <s|r> | cut | hang <s|r> <k> | panic … | end
+        pend <s|r> <k> | cancelled <s|r> <k> | drop <s|r> | cut | hang <s|r> <k> | panic … | end
 Output: DIFF/FAIL lines and `END <case> events=<n> replay=<ok|diff> pred=<ok|fail> outcome=<…>` per case,
         `TOTAL cases=<n> diffs=<n> fails=<n>` at the end.
 -/
@@ -45,6 +45,12 @@ structure Case where
   shutdownOk : Option Nat := none
   shutdowns : Nat := 0
   segReads : Nat := 0
+  /-- real observations: a chunk accepted by the last write has not been handed over by a later
+  successful sender call; a sender call failed with a port error; a fault was injected -/
+  inflight : Bool := false
+  txErrSeen : Bool := false
+  faulty : Bool := false
+  cancels : Nat := 0
   hangR : Bool := false
   hangS : Bool := false
   lazyLabels : Nat := 0
@@ -165,7 +171,7 @@ def finishCase (st : St) : IO St := do
   if !c.active then return st
   let outcome :=
     if c.eofSeen then "eof" else if c.errSeen then "error" else if c.hangR then "pending" else "open"
-  IO.println s!"END {c.name} events={c.events} replay={if c.diffs == 0 then "ok" else "diff"} pred={if c.fails == 0 then "ok" else "fail"} outcome={outcome} accepted={c.acc.length} received={c.rcv.length} segreads={c.segReads} lazy={c.lazyLabels}"
+  IO.println s!"END {c.name} events={c.events} replay={if c.diffs == 0 then "ok" else "diff"} pred={if c.fails == 0 then "ok" else "fail"} outcome={outcome} accepted={c.acc.length} received={c.rcv.length} segreads={c.segReads} lazy={c.lazyLabels} cancels={c.cancels}"
   return { st with cur := {}, cases := st.cases + 1, diffs := st.diffs + c.diffs, fails := st.fails + c.fails }
 
 def parseReal (ws : List String) (bytesResult : Bool) : Option Real :=
@@ -192,6 +198,20 @@ def stepCase (c : Case) (ws : List String) : IO Case := do
     | some n => return { c with rCall := some n }
     | none => diff c "unparsable read"
   | ["pend", "s", _] => return c
+  | ["cancelled", "s", _] =>
+    -- a pending `poll_write` has no effect on the sender (the hand-over in progress stays in the sender)
+    return { c with sCall := none, cancels := c.cancels + 1 }
+  | ["cancelled", "r", _] =>
+    let c := { c with cancels := c.cancels + 1 }
+    -- the pending poll may have started a receive / the size verification; nothing else
+    match c.rCall with
+    | some n =>
+      let c := { c with rCall := none }
+      if c.exact || !c.inStep then return c   -- (exact: already applied at `pend`)
+      match stepOut c.cfg c.st (.read n 0) with
+      | some (.pending, s') => return { c with st := s' }
+      | _ => return c
+    | none => return c
   | ["pend", "r", _] =>
     -- at a quiescent point of a run without faults the model decides whether a read can complete
     if c.exact && c.inStep then
@@ -214,7 +234,7 @@ def stepCase (c : Case) (ws : List String) : IO Case := do
           if n > bs.length then c ← fail c "write reports more bytes than offered"
           if n > 0 && c.eofSeen then c ← fail c "bytes accepted after the reader was told end-of-file"
           if n > 0 && c.shutdownOk.isSome then c ← fail c "bytes accepted after a successful shutdown"
-          c := { c with acc := c.acc ++ bs.take n }
+          c := { c with acc := c.acc ++ bs.take n, inflight := decide (n > 0) }
           match c.cfg.fixed with
           | some N => if c.acc.length > N then c ← fail c "overlong: more bytes accepted than the fixed size"
           | none => pure ()
@@ -230,6 +250,12 @@ def stepCase (c : Case) (ws : List String) : IO Case := do
           | none => pure (if c.shutdownOk.isNone then { c with shutdownOk := some c.acc.length } else c)
         | .shutdown, .err _ => pure { c with shutdowns := c.shutdowns + 1 }
         | _, _ => pure c
+      -- every call that returns without a port error has completed the pending hand-over
+      let c := match real with
+        | .err k => if k == "writezero" || k == "brokenpipe" || k == "eof" then { c with inflight := false }
+                    else { c with txErrSeen := true }
+        | .okN n => { c with inflight := decide (n > 0) }
+        | _ => { c with inflight := false }
       replayTx c l real
     | _, _ => diff c "ret s without call / unparsable"
   | ["probe", "s", bw, exp] =>
@@ -266,6 +292,13 @@ def stepCase (c : Case) (ws : List String) : IO Case := do
         | .err _ => do
           let mut c := c
           if c.eofSeen then c ← fail c "error after end-of-file was reported"
+          -- the converse of the decision table: a stream the sender completed without any fault must end in EOF
+          let complete := !c.faulty && !c.txErrSeen && !c.inflight &&
+            (match c.cfg.fixed with
+             | some N => c.acc.length == N
+             | none => c.shutdownOk.isSome)
+          if complete && !c.errSeen then
+            c ← fail c "the sender completed the stream (all bytes handed over, size reached or announced, no fault) but the reader got an error"
           pure { c with errSeen := true }
         | _ => pure c
       if !c.inStep then return c
@@ -290,11 +323,13 @@ def stepCase (c : Case) (ws : List String) : IO Case := do
     | some (_, s') => return { c with st := s' }
     | none => diff c "drop s not enabled"
   | ["drop", "r"] =>
+    let c := { c with faulty := true }
     if !c.inStep then return c
     match stepOut c.cfg c.st .dropRx with
     | some (_, s') => return { c with st := s' }
     | none => diff c "drop r not enabled"
   | ["cut"] =>
+    let c := { c with faulty := true }
     if !c.inStep then return c
     match stepOut c.cfg c.st .cut with
     | some (_, s') => return { c with st := s' }
@@ -332,7 +367,8 @@ def step (st : St) (_n : Nat) (line : String) : IO St := do
     -- `severed=1`: placement in which the data port is dead from the start (both halves shipped away)
     let s0 := if kv rest "severed" == some "1" then run cfg (init cfg) [.sever, .notice] else init cfg
     return { st with cur := { name := name, active := true, cfg := cfg, st := s0,
-                              exact := kv rest "exact" == some "1" } }
+                              exact := kv rest "exact" == some "1",
+                              faulty := kv rest "severed" == some "1" } }
   | ["end"] => finishCase st
   | _ =>
     if !st.cur.active then return st
